@@ -1,5 +1,6 @@
 """C20 isoparse never misreads."""
 from engine import chx, report, stubs, sym
+from engine import sym as S
 from engine.chx import Cell
 
 M = "harness.iso"
@@ -8,9 +9,59 @@ M = "harness.iso"
 REPR = [0, 1, 2, 3, 4, 5, 6, 8, 9, 10, 12, 16, 20, 24, 100, 399]   # year residues mod 400 for week-shaped inputs in the quick tier: every (leap, weekday of 1 Jan) class + century + last
 
 
+GARBAGE = [10, 32, 9, 95, 43, 45, 0, 46, 58, 48, 0xb2]      # newline, blank, tab, '_', signs, NUL, '.', ':', a digit, non-ASCII
+BASES = {
+    "date": ["2014", "2014-02", "201402", "2014-02-04", "20140204", "2014-W06", "2014W06", "2014-W06-2", "2014W062", "2014-035", "2014035"],
+    "time": ["12", "12:34", "1234", "12:34:56", "123456", "12:34:56.5", "12:34:56,123456", "12:34+05:30", "1234Z", "12:34:56-0530", "24:00"],
+    "tz": ["Z", "+05", "-0530", "+05:30", "-00:30", "+00:00"],
+    "dt": ["2014-02-04T12:34", "20140204T123456", "2014-02-04T12:34:56.789+05:30", "2014-W06-2T12", "2014035T1234Z", "2014-02-04 12:34:56"],
+}
+
+
+def h_garbage(entry, mode, sep=None):
+    """One-character damage to well-formed strings: a byte from a list of white space / signs / separators / digits /
+    non-ASCII values replaces a character, is inserted, or replaces a deleted character's neighbourhood (delete one, append
+    one).  Base string, position, byte and kind of damage are pinned per path; each damaged string runs natively through
+    the same oracle as the free-byte cells (accepted => a strict layout matches and the value is its denotation; rejected
+    => ValueError and nothing else)."""
+    from harness import iso
+    bases = BASES[entry]
+    types = dict(bi=int, pos=int, gi=int)
+    maxlen = max(len(b) for b in bases)
+
+    def fn(ctx, bi, pos, gi):
+        ctx.assume(S.within(bi, 0, len(bases) - 1))
+        ctx.assume(S.within(pos, 0, maxlen))
+        ctx.assume(S.within(gi, 0, len(GARBAGE) - 1))
+        bi, pos, gi = ctx.concrete(bi), ctx.concrete(pos), ctx.concrete(gi)
+        base = [ord(c) for c in bases[bi]]
+        if pos > len(base) or (mode != 1 and pos >= len(base)):
+            ctx.assume(False)
+        if ctx.symbolic:
+            return None
+        g = GARBAGE[gi]
+        if mode == 0:
+            bs = base[:pos] + [g] + base[pos + 1:]
+        elif mode == 1:
+            bs = base[:pos] + [g] + base[pos:]
+        else:
+            bs = base[:pos] + base[pos + 1:] + [g]
+        if not bs:
+            return None
+        inner = iso.h_iso(entry, bs, "c20", sep)[0]
+        with ctx.untraced():
+            inner(ctx)
+        return None
+    return fn, types
+
+
 def cells(tier):
     q = tier == "quick"
     cs = []
+    for mode in (0, 1, 2):       # replace / insert / delete-and-append
+        for entry in ("date", "time", "tz", "dt"):
+            cs.append(Cell("harness.c20", "h_garbage", dict(entry=entry, mode=mode), budget_s=240))
+        cs.append(Cell("harness.c20", "h_garbage", dict(entry="dt", mode=mode, sep="T"), budget_s=240))
 
     def free(entry, n, budget, sep=None):
         nm = "%s%s/free%d" % (entry, "" if sep is None else "[sep=%s]" % sep, n)
@@ -57,6 +108,7 @@ ASSUMPTIONS = [
     "lemma year_step handed to the solver on week-date paths, proved separately each run",
     "quick tier: inputs shaped like a week date (digits + W) are decided for years congruent mod 400 to one of %r; thorough: all years" % (REPR,),
     "message formatting of symbolic values is elided ('<sym>')",
+    "damage cells: well-formed base strings with one byte replaced / inserted / one character deleted and a byte appended, all pinned per path, run natively through the same oracle",
 ]
 OUTSIDE = ["string lengths beyond the cells", "str and stream inputs", "isoparser(sep) with non-ASCII separators"]
 
